@@ -153,10 +153,12 @@ inductive InitRes
   | ok (b : Block)
   | err           -- `Err(FluteError)`
 
-/-- `max_source_symbols` of `BlockDecoder::init` (/repo ac59f03): K_max = 8192 for Raptor (RFC 5053 5.1.2), K'_max = 56403 for
-    RaptorQ (RFC 6330 5.1.2); the FEC libraries panic beyond -/
+/-- `max_source_symbols` of `BlockDecoder::init` (/repo ac59f03, ee3ccfa): K_max = 8192 for Raptor (RFC 5053 5.1.2), K'_max = 56403
+    for RaptorQ (RFC 6330 5.1.2) - the FEC libraries panic beyond; 65536 for Compact No-Code (16-bit ESI: a larger block can never be
+    received, its `vec![None; K]` table would be allocated from one EXT_FTI) -/
 def tooManySymbols (s : Scheme) (k : Nat) : Bool :=
   match s with
+  | .noCode => decide (65536 < k)
   | .raptor => decide (8192 < k)
   | .raptorQ => decide (56403 < k)
   | _ => false
